@@ -74,6 +74,16 @@ class C10(UdpCheck):
                     alive = True
                 elif r < 0.05:
                     plan.append({"op": "rechallenge", "c": c, "t": round(t, 4)})
+                elif r < 0.09:
+                    # a misbehaving protocol-complete client: hello inside the session (follows a key change if the server
+                    # makes one), then a message the application answers with a kick, with another hello right behind it
+                    plan.append({"op": "rehello", "c": c, "t": round(t, 4)})
+                    for j in range(rng.choice([1, 2, 3])):
+                        t += rng.choice([0.2, 0.35, 0.5])
+                        plan.append({"op": "rehello", "c": c, "t": round(t, 4), "burst": True, "len": rng.choice([9, 24, 300])})
+                    for j in range(rng.choice([3, 6])):
+                        t += 0.25
+                        plan.append({"op": "send", "c": c, "t": round(t, 4), "len": 20, "retry": 0, "cb": False, "api": "send"})
                 elif r < 0.45:
                     same_frame = rng.random() < 0.5      # several messages in one datagram
                     for j in range(rng.choice([1, 1, 3, 8])):
@@ -255,7 +265,23 @@ class C10(UdpCheck):
                     missing.append((round(t_a, 4), x))
             if missing:
                 vs.append({"kind": "accepted_message_never_reached_the_handler", "key": "", "detail": {"addr": conn.addr, "missing": missing[:3], "n": len(missing)}})
-            if inc is None:
+            # server-initiated disconnect: the application called client.disconnect() - the disconnect event follows
+            # within a few ticks, and no message of that client is handed over after that
+            for t_k in sdisc.get(cid, ())[:1]:
+                bound = 3 * tick + 2 * interval + 0.1
+                if t_k < t_conn:
+                    continue
+                if t_disc is None and not loop_done and w.k.now - t_k > bound and (w.shutdown_t is None or w.shutdown_t > t_k + bound):
+                    vs.append({"kind": "server_initiated_disconnect_not_reported", "key": "",
+                               "detail": {"addr": conn.addr, "called_at": round(t_k, 4), "end": round(w.k.now, 3), "status": conn.status.name()}})
+                elif t_disc is not None and t_disc - t_k > bound:
+                    vs.append({"kind": "server_initiated_disconnect_reported_late", "key": "",
+                               "detail": {"addr": conn.addr, "late_by": round(t_disc - t_k, 4)}})
+                late = [t for t, k_, x in evs if k_ == "message" and t > t_k + bound]
+                if late:
+                    vs.append({"kind": "message_event_after_server_initiated_disconnect", "key": "",
+                               "detail": {"addr": conn.addr, "called_at": round(t_k, 4), "n": len(late), "first": round(late[0], 4)}})
+            if inc is None and not w.probes.get("misbehaving_client_followed_a_key_change"):
                 vs.append({"kind": "connected_object_without_matching_client_incarnation", "key": "",
                            "detail": {"addr": conn.addr}})
             # disconnect: exactly once, for a cause, inside its window
